@@ -467,7 +467,22 @@ pub fn job_program(job: &Sexp) -> String {
     let ninputs = job.try_field("rand").map(|f| f.args()[0].usize()).unwrap_or(8);
     let seed = job.try_field("seed").map(|f| f.args()[0].u64()).unwrap_or(1);
     let base = match compile_cfg(&src, false, true) {
-        Err(_) => return "(compile crash)".into(),
+        Err(_) => {
+            // the checker accepted the program but the compiler panicked: export the typed AST so
+            // that the model's re-checker can classify the tree
+            let site = crate::last_panic();
+            let ast = catch_unwind(AssertUnwindSafe(|| {
+                let prg = garble_lang::check(&src).ok()?;
+                let cs = HashMap::new();
+                let mut ex = Exporter { prg: &prg, const_sizes: &cs, names: Interner { map: HashMap::new() } };
+                Some(ex.program("main"))
+            }));
+            let ast = match ast {
+                Ok(Some(a)) => format!(" (ast {a})"),
+                _ => String::new(),
+            };
+            return format!("(compile crash {}){ast}", quote(site.as_bytes()));
+        }
         Ok(Err(e)) => {
             let kind = if e.contains("TypeError") { "type" } else if e.contains("ParseError") { "parse" }
                        else if e.contains("ScanError") { "scan" } else { "compiler" };
